@@ -12,6 +12,7 @@ import re
 from ..src import find_all, expr_text, pat_text, lit_int, lit_float
 from ..mir import call_matches, callee_name
 from ..flow import arg_place, origins, resolve_place, value_variants
+from ..flow import expr as expr_mir
 from .c18 import (NotUnderstood, templates_in, chain, is_path, unref, pat_strings, conjuncts, first_match, tail)
 
 CLAIM = {
@@ -321,14 +322,17 @@ def obligations(ctx):
     if len(vm) == 1:
         v = vm[0]
         vcfg = v.cfg()
-        cmpb = None
+        cmps = []
         for bb, t in v.calls():
             if call_matches(t, r"^std::cmp::PartialEq::(ne|eq)$|PartialEq.*>::(ne|eq)$"):
                 es = [expr(v, a) for a in t["args"]]
                 if any("Vec::len(" in e for e in es) and any(len(re.findall(r"checked_mul", e)) >= 1 and "and_then" in e for e in es):
-                    cmpb = (bb, t, es)
+                    cmps.append((bb, t, es))
         nw = [(bb, t) for bb, t in v.calls() if call_matches(t, r"^surface::SurfaceOwned::<T>::new_with$")]
-        ok_dom = cmpb is not None and bool(nw) and all(vcfg.dominates(cmpb[0], bb) for bb, t in nw)
+        # the comparison that guards the allocation (a later debug_assert of the same equality is not it)
+        dom = [c for c in cmps if nw and all(vcfg.dominates(c[0], bb) for bb, t in nw)]
+        cmpb = dom[0] if dom else (cmps[0] if cmps else None)
+        ok_dom = bool(dom)
         # the second factor is multiplied inside the and_then closure with checked_mul as well
         cl = [b for b in prog.bodies if b.closure_root == v.path and any(call_matches(t, r"::checked_mul$") for bb, t in b.calls())]
         ok_chk = cmpb is not None and len(cl) >= 1
@@ -359,6 +363,15 @@ def obligations(ctx):
             lemmas[(NW, "OVF")] = ("IMAGE-SIZE", "height*width divides the checked product channels*height*width (channels in {1,3,4}), which equals data.len()")
             if ok2:
                 lemmas[(SF, "OVF")] = ("IMAGE-SIZE", "same size as in new_with, its only caller here")
+        if chan_ok and ctx.extra.get("image_channels_validated"):
+            from .. import obligations as _obl
+            obs = [o for o in _obl.collect(v, lossy=False, unsafe=True) if not o.exp]
+            keys = oblrules.site_keys(obs)
+            lo, hi = ctx.extra.get("image_layout_dead_arm_lines") or (0, -1)
+            for o in obs:
+                if o.kind == "PANIC" and lo <= o.line <= hi:
+                    lemmas[(v.path, keys[id(o)])] = ("IMAGE-ARMS", "the catch-all arm of `match channels` is dead: channels is assigned once, rejected right there unless it is one of the "
+                                                                   "accepted values, its default is accepted, and every accepted value has a layout arm (all established by IMAGE-CHANNELS)")
         if chan_ok and size_ok:
             for b in prog.bodies:
                 if b.closure_root == v.path and any(call_matches(t, r"ops::Index<I>>::index$") for bb, t in b.calls()):
@@ -505,16 +518,27 @@ def run(ctx):
             vs = [v[1] for v in value_variants(sb, chan[0][1]["args"][2]) if isinstance(v, tuple)]
             cval = vs[0] if len(vs) == 1 else None
         per_px = None
-        wa = [(bb, t) for bb, t in sb.calls() if call_matches(t, r"Write::write_all$") and not sb.blocks[bb].get("cleanup")]
-        loops = sb.cfg().loops()
+        # the per-pixel write: in a `for` loop of serialize, or in the closure of an iterator driver (for_each / try_for_each / try_fold / fold)
+        wa = []
+        for wb in [sb] + [b for b in prog.bodies if b.closure_root == sb.path]:
+            for bb, t in wb.calls():
+                if call_matches(t, r"Write::write_all$") and not wb.blocks[bb].get("cleanup"):
+                    wa.append((bb, t, wb))
+        in_loop = False
         if len(wa) == 1:
-            pl = arg_place(sb, wa[0][1], 1)
+            wbb, wt, wb = wa[0]
+            pl = arg_place(wb, wt, 1)
             m = re.fullmatch(r"_(\d+)", pl or "")
             if m:
-                tm = re.fullmatch(r"\[u8; (\d+)\]", sb.locals[int(m.group(1))]["ty"])
+                tm = re.fullmatch(r"\[u8; (\d+)\]", wb.locals[int(m.group(1))]["ty"])
                 per_px = int(tm.group(1)) if tm else None
-            in_loop = any(wa[0][0] in b for b in loops.values())
-            og = origins(sb, wa[0][1]["args"][1])
+            if wb is sb:
+                in_loop = any(wbb in b for b in sb.cfg().loops().values())
+            else:
+                for bb, t in sb.calls():
+                    if call_matches(t, r"Iterator::(for_each|try_for_each|try_fold|fold)$") and any(
+                            ("closure:%s[" % wb.path.split("::")[-1]) in expr_mir(sb, a) for a in t["args"]):
+                        in_loop = True
         ctx.instance("IMAGE-CHANNELS", {"serialised_channels": cval, "bytes_written_per_pixel": per_px, "write_all_sites": len(wa)})
         if cval is None or per_px is None or len(wa) != 1 or not in_loop:
             ctx.anchor("IMAGE-CHANNELS", "Image::serialize", "channels constant (%s) or the per-pixel write ([u8; N] written once per loop iteration: %s) not understood" % (cval, per_px))
@@ -528,14 +552,62 @@ def run(ctx):
             if not (cloc and dloc and sloc):
                 raise NotUnderstood("visitor lacks channels/data/size locals")
             acc = None
+            vnode = None
             for mm in find_all(vfn, lambda n: n.get("k") == "macro" and n["short"] == "matches"):
                 ex = mm.get("extra") or {}
                 if ex.get("scrutinee") and is_path(ex["scrutinee"], cloc):
                     cases = ex["pat"]["cases"] if ex["pat"]["k"] == "or" else [ex["pat"]]
                     acc = {lit_int(c["e"]) for c in cases if c["k"] == "lit"}
+                    vnode = mm
+            if acc is None:
+                # the same validation spelled `[1, 3, 4].contains(&channels)` or `channels == 1 || channels == 3 || ..`
+                for mc in find_all(vfn, lambda n: n.get("k") == "mcall" and n["m"] == "contains" and len(n["args"]) == 1 and is_path(unref(n["args"][0]), cloc)):
+                    arr = unref(mc["recv"])
+                    if arr.get("k") == "array" and all(lit_int(x) is not None for x in arr["elems"]):
+                        acc = {lit_int(x) for x in arr["elems"]}
+                        vnode = mc
+
+                def disj(e):
+                    if e.get("k") == "bin" and e["op"] == "||":
+                        a, b = disj(e["l"]), disj(e["r"])
+                        return None if a is None or b is None else a | b
+                    if e.get("k") == "bin" and e["op"] == "==":
+                        for x, y in ((e["l"], e["r"]), (e["r"], e["l"])):
+                            if is_path(unref(x), cloc) and lit_int(y) is not None:
+                                return {lit_int(y)}
+                    return None
+                if acc is None:
+                    for e in find_all(vfn, lambda n: n.get("k") == "bin" and n["op"] == "||"):
+                        d = disj(e)
+                        if d and len(d) >= 2 and (acc is None or len(d) > len(acc)):
+                            acc = d
+                            vnode = e
             if acc is None:
                 raise NotUnderstood("no matches!(channels, ..) validation of the channels key")
             dflt = lit_int(tab["locals"][cloc])
+            # Is the validation a rejection right where channels is assigned?  `channels = <value>; if !VALID { return Err(..) }` inside the
+            # "channels" arm and no other assignment: then channels is in `acc` wherever it is read afterwards (side condition of the
+            # IMAGE-ARMS lemma used when the interpreter cannot evaluate the spelling of VALID itself).
+            chan_arm = None
+            for mk in find_all(tab["loop"], lambda n: n.get("k") == "match"):
+                for arm in mk["arms"]:
+                    if "channels" in (pat_strings(arm["pat"]) or []):
+                        chan_arm = arm
+            writes_c = find_all(vfn, lambda n: (n.get("k") == "assign" and is_path(n["l"], cloc)) or
+                                (n.get("k") == "bin" and n["op"].endswith("=") and n["op"] not in ("==", "!=", "<=", ">=") and is_path(n["l"], cloc)) or
+                                (n.get("k") == "ref" and n.get("mut") and is_path(n["e"], cloc)))
+            rejects = False
+            if chan_arm is not None and vnode is not None:
+                for n in find_all(chan_arm["body"], lambda n: n.get("k") == "if"):
+                    c, neg = n["cond"], False
+                    while c is not None and c.get("k") == "un" and c["op"] == "!":
+                        c, neg = c["e"], not neg
+                    if c is vnode:
+                        br = n["then"] if neg else n["else"]
+                        if br is not None and find_all(br, lambda x: x.get("k") == "return"):
+                            rejects = all(w["line"] <= n["line"] for w in writes_c)
+            in_arm = chan_arm is not None and len(writes_c) == 1 and any(w is writes_c[0] for w in find_all(chan_arm["body"], lambda n: n is writes_c[0]))
+            ctx.extra["image_channels_validated"] = bool(rejects and in_arm and dflt in acc)
             ctx.instance("IMAGE-CHANNELS", {"visitor_accepts": sorted(acc), "default_when_absent": dflt})
             if cval is not None and cval not in acc:
                 ctx.violation("IMAGE-CHANNELS", "Image::visit_map", "rejects-own-output", "the visitor accepts channels in %s but Image::serialize writes %s" % (sorted(acc), cval), sites=[vfile])
@@ -572,11 +644,16 @@ def run(ctx):
             ctx.instance("IMAGE-CHANNELS", {"length_check": chk, "before_layouts": chk is not None})
             if chk is None:
                 ctx.violation("IMAGE-CHANNELS", "Image::visit_map", "length-check", "no `data.len() != channels*height*width => Err` check precedes the pixel layouts (indexing would be unguarded)", sites=["%s:%d" % (vfile, lm["line"])])
+            outer_defs = dict(defs)
+            outer_mut = {st["pat"]["name"] for st in find_all(vfn, lambda x: x.get("k") == "let" and x["pat"]["k"] == "ident") if st["pat"].get("mut")}
             arms = {}
             for arm in lm["arms"]:
                 n = lit_int(arm["pat"]["e"]) if arm["pat"]["k"] == "lit" else None
                 if n is None:
                     if arm["pat"]["k"] == "wild":
+                        ls_ = [x["line"] for x in find_all(arm, lambda x: "line" in x)]
+                        if ls_ and arm is lm["arms"][-1]:
+                            ctx.extra["image_layout_dead_arm_lines"] = (min(ls_), max(ls_))
                         continue
                     raise NotUnderstood("layout arm %s" % pat_text(arm["pat"]))
                 arms[n] = arm
@@ -592,25 +669,68 @@ def run(ctx):
                 pos = cl[0]["params"][0]["name"]
                 defs = {}
                 for st in find_all(cl[0]["body"], lambda x: x.get("k") == "let" and x["pat"]["k"] == "ident"):
-                    defs[st["pat"]["name"]] = st["init"]
+                    if not st["pat"].get("mut"):
+                        defs[st["pat"]["name"]] = st["init"]
+
+                def poly(e, depth=0):
+                    """the index expression as a polynomial {sorted atom tuple: coefficient} over field paths; immutable lets of the closure and of
+                    the visitor (hoisted invariants such as `let width = size.width`) are substituted, so only the value matters, not the spelling"""
+                    if e is None or depth > 12:
+                        return None
+                    k = e.get("k")
+                    if k == "lit":
+                        v = lit_int(e)
+                        return {(): v} if v is not None else None
+                    if k in ("cast", "ref", "paren") or (k == "un" and e.get("op") == "*"):
+                        return poly(e["e"], depth + 1)
+                    if k == "path":
+                        nm = e["p"]
+                        if nm in defs and defs[nm] is not None:
+                            return poly(defs[nm], depth + 1)
+                        if nm in outer_defs and outer_defs[nm] is not None and nm not in outer_mut:
+                            return poly(outer_defs[nm], depth + 1)
+                        return {(nm,): 1}
+                    if k == "field":
+                        base = e["e"]
+                        if is_path(base) and base["p"] not in defs and base["p"] in outer_defs and base["p"] not in outer_mut and is_path(outer_defs[base["p"]]):
+                            return {("%s.%s" % (outer_defs[base["p"]]["p"], e["name"]),): 1}
+                        return {(expr_text(e),): 1}
+                    if k == "bin" and e["op"] in ("+", "-", "*", "<<"):
+                        a, b = poly(e["l"], depth + 1), poly(e["r"], depth + 1)
+                        if a is None or b is None:
+                            return None
+                        if e["op"] == "<<":
+                            if list(b) != [()]:
+                                return None
+                            b = {(): 2 ** b[()]}
+                        out = {}
+                        if e["op"] in ("+", "-"):
+                            sg = 1 if e["op"] == "+" else -1
+                            for m, c in a.items():
+                                out[m] = out.get(m, 0) + c
+                            for m, c in b.items():
+                                out[m] = out.get(m, 0) + sg * c
+                        else:
+                            for m1, c1 in a.items():
+                                for m2, c2 in b.items():
+                                    m = tuple(sorted(m1 + m2))
+                                    out[m] = out.get(m, 0) + c1 * c2
+                        return {m: c for m, c in out.items() if c != 0}
+                    return None
 
                 def lin(e):
-                    """(multiplier, additive offset) if e == mult * (pos.row * size.width + pos.col) + off"""
-                    if is_path(e) and e["p"] in defs:
-                        return lin(defs[e["p"]])
-                    if e.get("k") == "bin" and e["op"] == "+" and lit_int(e["r"]) is not None and e["r"].get("k") == "lit":
-                        b = lin(e["l"])
-                        return (b[0], b[1] + lit_int(e["r"])) if b else None
-                    if e.get("k") == "bin" and e["op"] == "*" and e["l"].get("k") == "lit":
-                        b = lin(e["r"])
-                        return (b[0] * lit_int(e["l"]), b[1] * lit_int(e["l"])) if b else None
-                    t = expr_text(e)
-                    if t in ("((%s.row * %s.width) + %s.col)" % (pos, sloc, pos), "(%s.col + (%s.row * %s.width))" % (pos, pos, sloc)):
-                        return (1, 0)
-                    return None
+                    """(multiplier, additive offset) if e == mult * (pos.row * size.width + pos.col) + off, in any equivalent spelling"""
+                    pl = poly(e)
+                    if pl is None:
+                        return None
+                    rw = tuple(sorted(("%s.row" % pos, "%s.width" % sloc)))
+                    cl = ("%s.col" % pos,)
+                    if set(pl) - {rw, cl, ()} or pl.get(rw) is None or pl.get(rw) != pl.get(cl):
+                        return None
+                    return (pl[rw], pl.get((), 0))
                 reads = {}
                 for name, init in defs.items():
-                    if init.get("k") == "index" and is_path(init["e"], dloc):
+                    if init is not None and init.get("k") == "index" and is_path(unref(init["e"]), dloc):
                         reads[name] = lin(init["i"])
                 news = [c for c in find_all(cl[0]["body"], lambda x: x.get("k") == "call" and is_path(x["f"]) and x["f"]["p"].endswith("RGBA::new"))]
                 if len(news) != 1 or len(news[0]["args"]) != 4:
@@ -619,6 +739,8 @@ def run(ctx):
                 for a in news[0]["args"]:
                     if is_path(a) and a["p"] in reads:
                         argv.append(reads[a["p"]])
+                    elif a.get("k") == "index" and is_path(unref(a["e"]), dloc):
+                        argv.append(lin(a["i"]))
                     elif lit_int(a) is not None:
                         argv.append(("lit", lit_int(a)))
                     else:
